@@ -23,6 +23,7 @@ type vsymS3 struct {
 	gets    []string
 	onCall  func(op, key string) // scheduling / monitoring hook
 	crashed bool                 // after a crash nothing is written any more
+	failOp  string               // when set: the next call of this operation fails (once)
 }
 
 func newVsymS3() *vsymS3 { return &vsymS3{objs: map[string][]byte{}} }
@@ -36,6 +37,10 @@ func (s *vsymS3) call(op, key string) {
 func (s *vsymS3) put(op, key string, body []byte) error {
 	s.call(op, key)
 	if s.crashed {
+		return vsymErrS3
+	}
+	if s.failOp == op {
+		s.failOp = ""
 		return vsymErrS3
 	}
 	if s.faulty && (s.budget == 0 || s.failed < s.budget) && vsym_Bool("fail:"+op) {
